@@ -502,7 +502,42 @@ class C08(Monitor):
             body = T
         return ('flag', int(self.IGN), 0, body) if ci else body
 
+    def check_sum(self, tr, acc):
+        """concatenation / alternation: every capture of every operand survives, in left-to-right order, with its name"""
+        if tr.result is None:
+            return
+        caps = []
+        for o in (tr.operands if tr.op.name != 'enclose' else [tr.operands[1], tr.operands[0], tr.operands[1]]):
+            if o.text == '':
+                continue
+            try:
+                caps += caps_of(rx.parse(o.text).tree)
+            except re.error:
+                return
+        names = [n for n in caps if n]
+        if len(set(names)) != len(names):
+            return
+        for lab, (k, v) in tr.outcomes:
+            if k != 'ok' or (tr.op.name == 'either' and lab == 'left' and '' in [o.text for o in tr.operands]):
+                continue
+            try:
+                got = caps_of(rx.parse(str(v)).tree)
+            except re.error:
+                continue
+            want = caps
+            acc.count('capture_lists_compared')
+            if got != want:
+                acc.viol.append(V(
+                    'C08|' + _opkey(tr) + '|captures|' + lab,
+                    f"{tr.expr} ({lab}) -> {str(v)!r} has capture groups {got}, the operands spell out {want}",
+                    _spelling_code(tr, lab, lab).replace("assert rx.equiv(str(a), str(b))[0] in ('tree', 'texts'), (str(a), str(b))",
+                                                         "from mc.monitors import caps_of\nassert caps_of(rx.parse(str(a)).tree) == %r, str(a)" % (want,))))
+                return
+
     def on_transition(self, tr, succ, acc):
+        if tr.op.family in ('concat', 'either', 'enclose'):
+            self.check_sum(tr, acc)
+            return
         if tr.op.family != 'group':
             return
         x = tr.operands[0]
